@@ -238,15 +238,12 @@ pub fn run(cfg: &PoolCfg, cases: &[Vec<u8>]) -> Vec<Outcome> {
     let n = cases.len();
     let results: Arc<Mutex<Vec<Option<Outcome>>>> = Arc::new(Mutex::new(vec![None; n]));
     let next = Arc::new(AtomicUsize::new(0));
-    // crash budget: once this many cases of one run have crashed / timed out (after confirmation), the
-    // remaining cases are not run (each would cost its full wall-clock cap): the run is a failure already
-    let crashes = Arc::new(AtomicUsize::new(0));
-    // (sized so that crashing cases cost about two minutes of wall clock at most: a crash costs up to three
-    // times the cap — the run and its confirmation with a doubled cap)
-    let crash_budget: usize = std::env::var("VCHECK_CRASH_BUDGET")
-        .ok()
-        .and_then(|s| s.parse().ok())
-        .unwrap_or_else(|| ((40.0 * cfg.workers as f64 / cfg.timeout.as_secs_f64().max(0.5)) as usize).clamp(20, 150));
+    // crash budget: crashing and hanging cases cost up to three times their wall-clock cap (the run and its
+    // confirmation with a doubled cap). Once the worker time spent on them exceeds 90 s per worker, the
+    // remaining cases are not run: the run is a failure already, and must not take hours to say so.
+    // (Cases that die at once — a stack overflow — hardly use the budget.)
+    let crashes = Arc::new(AtomicUsize::new(0)); // milliseconds of worker time spent in crashed cases
+    let crash_budget: usize = std::env::var("VCHECK_CRASH_BUDGET_MS").ok().and_then(|s| s.parse().ok()).unwrap_or(cfg.workers * 90_000);
     // small chunks: slow cases cluster (neighbouring cases come from the same template), and a chunk is
     // worked off by one worker
     let chunk = (n / (cfg.workers * 16)).clamp(1, 8);
@@ -266,7 +263,7 @@ pub fn run(cfg: &PoolCfg, cases: &[Vec<u8>]) -> Vec<Outcome> {
                     let mut local = Vec::with_capacity(end - start);
                     for i in start..end {
                         if crashes.load(Ordering::SeqCst) >= crash_budget {
-                            local.push(Outcome::Died(format!("NOT RUN: {crash_budget} cases of this run had already crashed or timed out")));
+                            local.push(Outcome::Died(format!("NOT RUN: crashing and hanging cases of this run had already used {} s of worker time", crash_budget / 1000)));
                             continue;
                         }
                         let t0 = Instant::now();
@@ -303,7 +300,7 @@ pub fn run(cfg: &PoolCfg, cases: &[Vec<u8>]) -> Vec<Outcome> {
                             }
                         }
                         if o.is_crash() {
-                            crashes.fetch_add(1, Ordering::SeqCst);
+                            crashes.fetch_add(t0.elapsed().as_millis() as usize, Ordering::SeqCst);
                         }
                         local.push(o);
                     }
